@@ -11,13 +11,14 @@ THEOREMS = [
     "Ymq.C15.chain_eval",
     "Ymq.C15.chain_eval_len33_witness",
     "Ymq.C15.chain_cap32_witness",
+    "Ymq.C15.chain_long_eval",
     "Ymq.C15.chain_interp_spec",
     "Ymq.C15.chainmul_spec",
     "Ymq.C15.dbladd_spec",
     "Ymq.C15.chainmul_eq_dbladd",
     "Ymq.C15.mul128_spec",
     "Ymq.C15.mul128_zero_witness",
-    "Ymq.C15.chainmul1024_spec_of_chain",
+    "Ymq.C15.chainmul1024_spec",
     "Ymq.C15.add_closed",
     "Ymq.C15.double_closed",
     "Ymq.C15.dblext_closed",
@@ -410,7 +411,7 @@ def oracle(case, ans):
             return None if ans == "1 0" else "k = 0 must give the chain [0]"
         return check_chain(ans, k, 33, 7)
     if op == "chain1024":
-        return check_chain(ans, int(a[0]), 384, 63)
+        return check_chain(ans, int(a[0]), 294, 63)
     if op == "smoothbase":
         f, l = smoothbase(int(a[0]), a[1] == "true")
         exp = f"{','.join(map(str, f)) or '-'} ; {','.join(map(str, l)) or '-'}"
@@ -563,8 +564,9 @@ def nontrivial(case, ans):
     return True
 
 
-CLAIM = ("Lean theorems: the 64-bit addition-chain builder is total on 0<k<2^64 (no overflow, no index out of its 33-entry "
-         "buffer), its chain denotes k and is well-formed; the chain interpreters of scalar64_chainmul / ecm128 scalar64_mul "
+CLAIM = ("Lean theorems: the 64-bit and the 1024-bit addition-chain builders are total on their non-zero scalars (no overflow or "
+         "underflow, no index out of the 33- resp. 384-entry buffer; at most 33 resp. 294 opcodes), their chains denote the "
+         "scalar and are well-formed; the chain interpreters of scalar64_chainmul / scalar1024_chainmul / ecm128 scalar64_mul "
          "compute k.P in every commutative group, hence equal double-and-add; curve formulas translated from the source "
          "satisfy closure / agreement identities (linear_combination certificates). Models are tied to the code by the "
          "translator (formulas, buffer sizes) and by differential runs (chains, every formula and the full scalar "
@@ -572,5 +574,5 @@ CLAIM = ("Lean theorems: the 64-bit addition-chain builder is total on 0<k<2^64 
          "judges every implementation answer.")
 LEVEL_NOTE = ("Trusted: Lean kernel (+propext, Classical.choice, Quot.sound), the translator's parser, the sampled "
               "correspondence of the hand-written chain models, Python integers in the oracle. Modular arithmetic of "
-              "ZmodN/M128 is taken to be Z/n (C07). The 1024-bit builder is proved only conditionally (see theorem list).")
+              "ZmodN/M128 is taken to be Z/n (C07).")
 TECHNIQUE = "Lean 4 proof about translated formulas and a hand model + differential correspondence check + spec oracle"
